@@ -70,7 +70,7 @@ VERDICT = {
     "C13-4": ("C13 K1c", "module-level ignore scope kernel (fastparse) added after the miss"),
     "C15-3": ("C15 K1d", "GetIntDigits kernel added after the miss; replay = real mypyc build"),
     "C15-4": ("C05, C15 K2", "as it stood (the sub-agent independently re-made the slip of C15-2 for all fixed-width types)"),
-    "C20-1": (None, "crash from program structure (recursive alias): outside the narrow folding claim"),
+    "C20-1": ("C20 K4", "recursion kernel (dangerous_comparison on recursive alias types from a real build) added after the miss; replay = real mypy --strict-equality"),
     "C20-2": ("C20 K3", "daemon work-list kernel added after the miss; replay = real daemon under a time limit vs a fresh run"),
 }
 
